@@ -69,7 +69,7 @@ def symbolic_plane(funcs, st, tag='c'):
     return outs[0][0], outs[0][1], n, p, interp
 
 
-def ref_volume(nz, d, anchor, width, removed_corner, orth):
+def ref_volume(nz, d, anchor, width, removed_corner, orth, denom=6):
     """closed form of vol{x in box : n.x >= d} for the given sign pattern of n (orth) and the given set of corners with n.x < d"""
     # unit-cube coordinates u: x = a + w u;  (n w).u >= d - n.a
     m = [nz[k] * width[k] for k in range(3)]
@@ -83,7 +83,7 @@ def ref_volume(nz, d, anchor, width, removed_corner, orth):
         if removed_corner(orig):
             t = ee - sum(mm[k] * v[k] for k in range(3))
             tot = tot + (-1) ** sum(v) * t * t * t
-    cut = tot / (6 * mm[0] * mm[1] * mm[2])
+    cut = tot / (denom * mm[0] * mm[1] * mm[2])
     vol_box = width[0] * width[1] * width[2]
     return vol_box * (1 - cut), vol_box * cut
 
@@ -139,6 +139,7 @@ class _Mini:
         self.cross = False
         self.tier = 'quick'
         self.cex = []
+        self.witnessed = False
 
     prove = engine.Run.prove
 
@@ -150,7 +151,50 @@ def _identity(run, name, lhs, rhs, timeout=300):
     """decide a rational-function identity: both sides brought to fractions, the cross-multiplied polynomial must vanish identically"""
     n1, d1 = ratfun.frac(lhs)
     n2, d2 = ratfun.frac(rhs)
-    return run.prove(name, [], n1 * d2 - n2 * d1 != 0, timeout=timeout, cross=False, on_sat='caller', clear_div=False)
+    diff = n1 * d2 - n2 * d1
+    t = time.time()
+    # z3's polynomial normaliser (sum-of-monomials form): an identity normalises to the numeral 0 - deterministic, no search
+    nf = z3.simplify(diff, som=True, mul_to_power=True, flat=True)
+    if z3.is_rational_value(nf) and nf.numerator_as_long() == 0:
+        dt = time.time() - t
+        run.solver_time += dt
+        run.obligations.append({'name': name, 'expect': 'unsat', 'verdict': 'unsat', 'solver': 'z3-5.1.0 polynomial normal form (simplify som=True): difference of the cross-multiplied sides is 0',
+                                'solver_s': round(dt, 3)})
+        return 'unsat', None
+    # a portfolio of solver processes on the same SMT-LIB text (their run times on these polynomial identities differ by more than 30x):
+    # unsat from any of them = identity; sat from any of them = not an identity (the caller then asks for a model under the path condition)
+    import subprocess
+    smt2 = engine.smt2_of([diff != 0], 'ALL') + '\n(check-sat)\n'
+    t = time.time()
+    verdicts = {}
+    procs = {}
+    for sn in ('z3-4.8.12', 'z3-5.1.0'):
+        pr = subprocess.Popen(engine.SOLVERS[sn](int(timeout)), stdin=subprocess.PIPE, stdout=subprocess.PIPE, stderr=subprocess.STDOUT, text=True)
+        pr.stdin.write(smt2)
+        pr.stdin.close()
+        procs[sn] = pr
+    while procs and time.time() - t < timeout + 5:
+        for sn, pr in list(procs.items()):
+            if pr.poll() is not None:
+                out = pr.stdout.read().strip()
+                first = out.split('\n')[0].strip() if out else ''
+                v = first if first in ('sat', 'unsat', 'unknown') and '(error' not in out else ('timeout' if 'timeout' in out.lower() else 'error')
+                verdicts[sn] = {'verdict': v, 's': round(time.time() - t, 2)}
+                del procs[sn]
+        if any(x['verdict'] in ('sat', 'unsat') for x in verdicts.values()):
+            break
+        time.sleep(0.05)
+    for sn, pr in procs.items():
+        pr.kill()
+        verdicts[sn] = {'verdict': 'stopped (the other solver answered first)', 's': round(time.time() - t, 2)}
+    dt = time.time() - t
+    run.solver_time += dt
+    vs = {x['verdict'] for x in verdicts.values()}
+    verdict = 'unsat' if 'unsat' in vs and 'sat' not in vs else 'sat' if 'sat' in vs and 'unsat' not in vs else 'unknown'
+    run.obligations.append({'name': name, 'expect': 'unsat', 'verdict': verdict, 'solver': 'portfolio z3-4.8.12 | z3-5.1.0 (CLI, SMT-LIB text)', 'solver_s': round(dt, 2), 'cross': verdicts})
+    if verdict == 'unknown':
+        run.inconclusive.append('%s: no solver decided the identity within %ss (%r)' % (name, timeout, verdicts))
+    return verdict, None
 
 
 def _worker(args):
@@ -163,7 +207,7 @@ def _worker(args):
     nz, d = P['nz'], P['d']
     p_new = P['n_planes0']
     name2 = engine.find_fn(funcs, r'convex_cell::<impl at [^>]*>::compute_cell_integral$')
-    vf = lambda s, nm: s.items[engine.field_index('src/voronoi/integrals.rs', 'VolumeCentroidIntegral', nm)]
+    vf = lambda s, nm: s.items[engine.field_index('src/voronoi/integrals.rs', 'VolumeIntegral', nm)]
     done = []
     fns = set(P['fns'])
     for k, (s, _) in enumerate(P['outs']):
@@ -229,7 +273,7 @@ def _worker(args):
         # (b) volume = closed form
         i2 = engine.new_interp(funcs, max_visits=800000, max_paths=200000)
         s.heap[50] = c2
-        o2 = i2.exec_fn(s, name2, [Ref(('H', 50)), UNIT], {'M': 'WithoutFaces', 'I': 'VolumeCentroidIntegral', 'D': '()'})
+        o2 = i2.exec_fn(s, name2, [Ref(('H', 50)), UNIT], {'M': 'WithoutFaces', 'I': 'VolumeIntegral', 'D': '()'})
         fns |= set(i2.stats['functions'])
         norths = 0
         seen_vol = []
@@ -240,15 +284,37 @@ def _worker(args):
             seen_vol.append(vol)
             for orth in itertools.product((1, -1), repeat=3):
                 Ho = H + [(a > 0 if sg > 0 else a < 0) for a, sg in zip(nz, orth)]
+                # is this sign pattern of the normal compatible with the removed-corner set?  Exact linear question: the plane offset
+                # d = n.p ranges over all reals for n != 0, so (n, d) with the corner signs of this path is a linear feasibility problem
+                ln = [z3.Real('lin_n%d' % a) for a in range(3)]
+                ld = z3.Real('lin_d')
                 sol = z3.Solver()
-                sol.set('timeout', 20000)
-                for h in Ho:
-                    sol.add(h)
-                if sol.check() == z3.unsat:
+                for a, sg in enumerate(orth):
+                    sol.add(ln[a] > 0 if sg > 0 else ln[a] < 0)
+                for cn in itertools.product((0, 1), repeat=3):
+                    x = [anchor[a] + width[a] * cn[a] for a in range(3)]
+                    side = sum(ln[a] * x[a] for a in range(3)) - ld
+                    sol.add(side < 0 if cn in removed else side > 0)
+                sol.add(sum(ln[a] * loc[a] for a in range(3)) - ld > 0)
+                if sol.check() != z3.sat:
                     continue
                 norths += 1
                 ref, cut = ref_volume(nz, d, anchor, width, lambda cn: cn in removed, orth)
                 vv, m = _identity(mr, '%s, normal orthant %r: computed volume = closed-form volume of box /\\ half-space' % (tag, orth), vol, ref)
+                if not mr.witnessed and vv == 'unsat':
+                    # vacuity guard: the same query against a perturbed reference (a tetrahedron volume of base*height/5) must NOT be an identity
+                    mr.witnessed = True
+                    bad_ref, _ = ref_volume(nz, d, anchor, width, lambda cn: cn in removed, orth, denom=5)
+                    n1_, d1_ = ratfun.frac(vol)
+                    n2_, d2_ = ratfun.frac(bad_ref)
+                    vars_ = P['nz'] + P['pz']
+                    vals_ = [z3.RealVal(x) for x in (2 * orth[0], 3 * orth[1], 5 * orth[2], F(1, 3), F(2, 7), F(3, 11))]
+                    g_ = z3.simplify(z3.substitute(n1_ * d2_ - n2_ * d1_, *zip(vars_, vals_)))
+                    wv = 'sat' if z3.is_rational_value(g_) and g_.numerator_as_long() != 0 else 'unknown'
+                    mr.obligations.append({'name': '%s, orthant %r: self-mutation witness (reference with 1/5 instead of 1/6) is refuted by a ground instance' % (tag, orth),
+                                           'expect': 'sat', 'verdict': wv, 'solver': 'z3 (ground instance)', 'solver_s': 0.0})
+                    if wv != 'sat':
+                        mr.inconclusive.append('%s: vacuity witness not refuted (%s)' % (tag, wv))
                 if vv == 'sat':
                     # not an identity: a concrete plane of this path and orthant for the native replay
                     s_ = z3.Solver()
@@ -285,7 +351,7 @@ def single_clip(run, funcs, pid, boxes=(0,), procs=12, want_volume=True, thoroug
         if rs[0]['panics']:
             run.suspect.append('%s box %d: clip_by_plane has %d panicking paths for planes without ties' % (pid, b, rs[0]['panics']))
         run.samples.append({'box': [str(x) for x in BOXES[b][0]] + [str(x) for x in BOXES[b][1]], 'generator': [str(x) for x in BOXES[b][2]], 'paths': npaths,
-                            'removed_corner_counts': sorted({x[1] for x in done}), 'orthant_cases': sum(x[2] for x in done)})
+                            'removed_corner_counts': sorted({x[1] for x in done}), 'orthant_cases': sum(x[2] for x in done if x[2] > 0)})
     for r in results:
         run.obligations.extend(r['obligations'])
         run.suspect.extend(r['suspect'])
